@@ -23,7 +23,7 @@ static uint64_t fnv(uint64_t h, const void *p, size_t n) { const unsigned char *
 static uint64_t globals_hash(void) { uint64_t h = FNV0; for (int i = 0; i < nseg; i++) h = fnv(h, seg[i].p, seg[i].n); return h; }
 
 /* ---- the workload: call id -> digest of (return code, outputs) ---- */
-#define NCALLS 48
+#define NCALLS 96
 static H3Index PENT[16][12];
 static H3Index cellA[NCALLS];
 static void prepare(uint64_t seed) {
@@ -35,20 +35,34 @@ static uint64_t do_call(int c) {
     switch (c % 12) {
         case 0: { CellBoundary cb; memset(&cb, 0, sizeof cb); r = cellToBoundary(a, &cb); h = fnv(h, &cb.numVerts, sizeof(int)); h = fnv(h, cb.verts, sizeof(LatLng) * (cb.numVerts > 0 && cb.numVerts <= 10 ? cb.numVerts : 0)); double ar = 0; r |= cellAreaRads2(a, &ar); h = fnv(h, &ar, sizeof ar); break; }
         case 1: { LatLng g; r = cellToLatLng(a, &g); H3Index o = 0; r |= latLngToCell(&g, res, &o); h = fnv(h, &g, sizeof g); h = fnv(h, &o, 8); break; }
-        case 2: { int64_t n; maxGridDiskSize(3, &n); H3Index *o = calloc(n, 8); int *d = calloc(n, sizeof(int)); r = gridDiskDistances(a, 3, o, d); h = fnv(h, o, n * 8); h = fnv(h, d, n * sizeof(int)); free(o); free(d); break; }
-        case 3: { int cr = res + 2 > 15 ? 15 : res + 2; int64_t n; cellToChildrenSize(a, cr, &n); H3Index *o = calloc(n, 8), *cp = calloc(n, 8); r = cellToChildren(a, cr, o); r |= compactCells(o, cp, n); h = fnv(h, o, n * 8); h = fnv(h, cp, n * 8); free(o); free(cp); break; }
+        case 2: { int64_t n; maxGridDiskSize(3, &n); H3Index *o = calloc(n, 8); int *d = calloc(n, sizeof(int)); int v = (c / 12) % 4;
+            if (v == 0) r = gridDiskDistances(a, 3, o, d); else if (v == 1) r = gridDisk(a, 3, o); else if (v == 2) { r = gridRingUnsafe(a, 2, o); r |= gridDiskDistancesSafe(a, 2, o + 12, d); }
+            else { H3Index two[2] = {a, a}; H3Index nb[7] = {0}; gridDisk(a, 1, nb); if (nb[3]) two[1] = nb[3]; H3Index *o2 = calloc(2 * 7, 8); r = gridDisksUnsafe(two, 2, 1, o2); h = fnv(h, o2, 14 * 8); free(o2); int nbr = -1; r |= areNeighborCells(two[0], two[1], &nbr); h = fnv(h, &nbr, sizeof nbr); }
+            h = fnv(h, o, n * 8); h = fnv(h, d, n * sizeof(int)); free(o); free(d); break; }
+        case 3: { int cr = res + ((c / 12) % 2 ? 3 : 2); if (cr > 15) cr = 15; int64_t n; cellToChildrenSize(a, cr, &n); H3Index *o = calloc(n, 8), *cp = calloc(n, 8); r = cellToChildren(a, cr, o); r |= compactCells(o, cp, n); h = fnv(h, o, n * 8); h = fnv(h, cp, n * 8);
+            int64_t un = 0; r |= uncompactCellsSize(cp, n, cr, &un); if (un == n) { H3Index *u = calloc(n, 8); r |= uncompactCells(cp, n, u, n, cr); h = fnv(h, u, n * 8); free(u); } free(o); free(cp); break; }
         case 4: case 5: { CellBoundary cb; cellToBoundary(a, &cb); GeoPolygon gp = {{cb.numVerts, cb.verts}, 0, NULL}; int pr = res + 2 > 15 ? 15 : res + 2; int64_t n = 0;
+            CellBoundary hb; GeoLoop hole; if ((c / 12) % 2 && res + 1 <= 15) { H3Index cc; cellToCenterChild(a, res + 1, &cc); cellToBoundary(cc, &hb); hole.numVerts = hb.numVerts; hole.verts = hb.verts; gp.numHoles = 1; gp.holes = &hole; }
             if (c % 12 == 4) { r = maxPolygonToCellsSize(&gp, pr, 0, &n); if (!r) { H3Index *o = calloc(n, 8); r = polygonToCells(&gp, pr, 0, o); h = fnv(h, o, n * 8); free(o); } }
             else { uint32_t fl = (uint32_t)(c / 12) % 4; r = maxPolygonToCellsSizeExperimental(&gp, pr, fl, &n); if (!r) { H3Index *o = calloc(n, 8); r = polygonToCellsExperimental(&gp, pr, fl, n, o); h = fnv(h, o, n * 8); free(o); } }
             h = fnv(h, &n, 8); break; }
-        case 6: { int64_t n; maxGridDiskSize(2, &n); H3Index *set = calloc(n, 8); gridDisk(a, 2, set); int m = 0; for (int64_t i = 0; i < n; i++) if (set[i]) set[m++] = set[i];
+        case 6: { int v = (c / 12) % 4; int k = v == 3 ? 5 : v == 2 ? 3 : 2; int64_t n; maxGridDiskSize(k, &n); H3Index *set = calloc(n, 8); int *dd = calloc(n, sizeof(int)); gridDiskDistances(a, k, set, dd); int m = 0;
+            /* 0: filled disk; 1: ring (one hole); 2: disk minus centre plus nothing else (hole of one cell); 3: nested rings and an isolated cell (holes inside holes, three outer loops) */
+            for (int64_t i = 0; i < n; i++) if (set[i] && (v == 0 || (v == 1 && dd[i] == 2) || (v == 2 && dd[i] >= 1) || (v == 3 && (dd[i] == 1 || dd[i] == 3 || (dd[i] == 5 && m < 40 && i % 7 == 0))))) set[m++] = set[i];
+            free(dd);
             LinkedGeoPolygon lp; memset(&lp, 0, sizeof lp); r = cellsToLinkedMultiPolygon(set, m, &lp);
             if (!r) { for (LinkedGeoPolygon *p = &lp; p; p = p->next) for (LinkedGeoLoop *q = p->first; q; q = q->next) for (LinkedLatLng *v = q->first; v; v = v->next) h = fnv(h, &v->vertex, sizeof(LatLng)); destroyLinkedMultiPolygon(&lp); }
             free(set); break; }
         case 7: { H3Index d[19] = {0}; gridDisk(a, 2, d); H3Index b = 0; for (int i = 18; i >= 0; i--) if (d[i]) { b = d[i]; break; } int64_t n = 0; r = gridPathCellsSize(a, b, &n); if (!r && n < 64) { H3Index o[64] = {0}; r = gridPathCells(a, b, o); h = fnv(h, o, n * 8); } int64_t dist = -1; r |= gridDistance(a, b, &dist); h = fnv(h, &dist, 8); break; }
         case 8: { H3Index v[6] = {0}, e[6] = {0}; r = cellToVertexes(a, v); r |= originToDirectedEdges(a, e); h = fnv(h, v, 48); h = fnv(h, e, 48); for (int i = 0; i < 6; i++) if (v[i]) { LatLng g; vertexToLatLng(v[i], &g); h = fnv(h, &g, sizeof g); } for (int i = 0; i < 6; i++) if (e[i]) { CellBoundary cb; memset(&cb, 0, sizeof cb); directedEdgeToBoundary(e[i], &cb); h = fnv(h, cb.verts, sizeof(LatLng) * (cb.numVerts > 0 && cb.numVerts <= 10 ? cb.numVerts : 0)); double len; edgeLengthRads(e[i], &len); h = fnv(h, &len, 8); } break; }
-        case 9: { int o[5] = {-2, -2, -2, -2, -2}; r = getIcosahedronFaces(a, o); h = fnv(h, o, sizeof o); char s[32]; h3ToString(a, s, 32); h = fnv(h, s, strlen(s)); const char *d = describeH3Error((H3Error)(c % 16)); h = fnv(h, d, strlen(d)); break; }
-        case 10: { H3Index p = 0; r = cellToParent(a, res > 2 ? res - 2 : 0, &p); int64_t pos = -1; r |= cellToChildPos(a, res > 2 ? res - 2 : 0, &pos); H3Index back = 0; r |= childPosToCell(pos, p, res, &back); h = fnv(h, &p, 8); h = fnv(h, &pos, 8); h = fnv(h, &back, 8); CoordIJ ij = {0, 0}; H3Index d[7] = {0}; gridDisk(a, 1, d); cellToLocalIj(a, d[2] ? d[2] : a, 0, &ij); h = fnv(h, &ij, sizeof ij); break; }
+        case 9: { int o[5] = {-2, -2, -2, -2, -2}; r = getIcosahedronFaces(a, o); h = fnv(h, o, sizeof o); char s[32]; h3ToString(a, s, 32); h = fnv(h, s, strlen(s)); const char *d = describeH3Error((H3Error)(c % 16)); h = fnv(h, d, strlen(d));
+            H3Index back = 0; r |= stringToH3(s, &back); h = fnv(h, &back, 8); LatLng g1, g2; cellToLatLng(a, &g1); cellToLatLng(cellA[(c + 1) % NCALLS], &g2); double gd = greatCircleDistanceKm(&g1, &g2), ak = 0; r |= cellAreaKm2(a, &ak); h = fnv(h, &gd, 8); h = fnv(h, &ak, 8);
+            int mf = 0; r |= maxFaceCount(a, &mf); h = fnv(h, &mf, sizeof mf); int iv = isValidCell(a), ip = isPentagon(a), c3 = isResClassIII(a), bn = getBaseCellNumber(a); h = fnv(h, &iv, 4); h = fnv(h, &ip, 4); h = fnv(h, &c3, 4); h = fnv(h, &bn, 4); break; }
+        case 10: { H3Index p = 0; r = cellToParent(a, res > 2 ? res - 2 : 0, &p); int64_t pos = -1; r |= cellToChildPos(a, res > 2 ? res - 2 : 0, &pos); H3Index back = 0; r |= childPosToCell(pos, p, res, &back); h = fnv(h, &p, 8); h = fnv(h, &pos, 8); h = fnv(h, &back, 8); CoordIJ ij = {0, 0}; H3Index d[7] = {0}; gridDisk(a, 1, d); cellToLocalIj(a, d[2] ? d[2] : a, 0, &ij); h = fnv(h, &ij, sizeof ij);
+            H3Index lb = 0; r |= localIjToCell(a, &ij, 0, &lb); h = fnv(h, &lb, 8);
+            if (d[2]) { H3Index e = 0, od[2] = {0, 0}, og = 0, ds = 0; r |= cellsToDirectedEdge(a, d[2], &e); r |= directedEdgeToCells(e, od); r |= getDirectedEdgeOrigin(e, &og); r |= getDirectedEdgeDestination(e, &ds); int ve = isValidDirectedEdge(e); h = fnv(h, &e, 8); h = fnv(h, od, 16); h = fnv(h, &og, 8); h = fnv(h, &ds, 8); h = fnv(h, &ve, sizeof ve);
+                H3Index vx = 0; r |= cellToVertex(a, 2, &vx); int vv = isValidVertex(vx); h = fnv(h, &vx, 8); h = fnv(h, &vv, sizeof vv); }
+            break; }
         default: { H3Index o[12] = {0}; r = getPentagons(c % 16, o); h = fnv(h, o, 96); H3Index r0[122]; getRes0Cells(r0); h = fnv(h, r0, sizeof r0); int64_t n; getNumCells(c % 16, &n); h = fnv(h, &n, 8); double ar; getHexagonAreaAvgKm2(c % 16, &ar); h = fnv(h, &ar, 8); break; }
     }
     return fnv(h, &r, sizeof r);
